@@ -84,6 +84,12 @@ CHECKS["C01"] = dict(
     ref="DESIGN.md section 4 / C01",
 )
 
+CHECKS["C05"] = dict(
+    technique="static analysis: loop-progress dataflow with interprocedural 'productive' summaries (greatest fixpoint over all parser classes) on a hand-built CFG; provenance/consumption analysis of cursor moves; must-dataflow dominance for table lookups; raise-family and argument-length lints",
+    text="Every while loop of the recursive-descent parser (all 34 parser classes) and of the tokenizer must reach each back edge having consumed a token (consuming-match conditions, unconditional advances, peek-then-parse, explicit progress checks, productive callees derived by a fixpoint) or be a recognised non-cursor loop; every backward cursor move must target a saved index or be covered by consumption/dispatch credit; every class-table lookup must be dominated by a successful match on the same table; the generator's fall-through and every explicit raise must stay inside the library's error family; constant indexing of function-builder argument lists needs a dominating length guard; the scanner runs only under the TokenError wrapper. This found and led to fixes for five genuine parser hangs. None-dereferences, work bounds and recursion depth are not decided.",
+    ref="DESIGN.md section 4 / C05",
+)
+
 NOT_APPLICABLE = {
     "C02": "oracle is SQLite/DuckDB evaluation semantics (NULL ordering, division, || precedence); not present in the source, no structural clause implies row equality",
     "C03": "result-multiset equality of optimized vs original query over all databases; guards are semantic conditions, only checkable as frozen fragments (false-alarm prone)",
